@@ -18,7 +18,7 @@ import time
 
 VERIF = os.path.dirname(os.path.dirname(os.path.abspath(__file__)))
 REPO = os.environ.get("CEDAR_REPO", "/repo")
-CACHE = os.path.join(VERIF, ".cache")
+CACHE = os.environ.get("CEDAR_VERIF_CACHE") or os.path.join(VERIF, ".cache")
 DRIVER = os.path.join(VERIF, "driver", "target", "release", "cedar-facts-driver")
 PKGS = ["cedar-policy", "cedar-policy-core", "cedar-policy-formatter",
         "cedar-policy-symcc", "cedar-policy-cli"]
